@@ -50,7 +50,18 @@ fn tiny_spec(run_seed: u64) -> PipeSpec {
     // budgeted by the queue capacity (pending output, in-flight work) is over budget early
     if r.pct(30) {
         let floor = s.gen.max_len as u64 + 64;
-        s.cfg.queue_capacity = format!("{}", floor + r.below(floor));
+        s.cfg.queue_capacity = format!("{}", floor + r.below(16));
+        // enough output to exceed that budget several times over before finalize
+        s.gen.n_samples = s.gen.n_samples.max(r.range(4, 8) as u32);
+        s.gen.ref_contigs = 3;
+        if !s.cfg.single_file {
+            s.presentations = vec![crate::gen::fasta::Presentation::plain(); s.gen.n_samples as usize];
+        }
+        if s.api.is_none() && s.gen.pansn && r.pct(60) {
+            s.cfg.single_file = true;
+            s.presentations.truncate(1);
+            s.cfg.pack_cardinality = *r.pick(&[2u32, 3, 5]);
+        }
     }
     s
 }
